@@ -54,13 +54,20 @@ Proof. exact every_used_variable_is_declared. Qed.
 Theorem header_declares_only_used_variables : forall ts ss n t,
   wt ts ss = true -> header_declares ts ss n = Some t -> In (n, t) (positions ss).
 Proof. exact only_used_variables_are_declared. Qed.
-(* the hypothesis matters: a value with children but without the annotation is skipped, variables and all *)
+(* every OCCURRENCE of a variable in an argument has such a position type — inside a custom scalar, where the
+   schema says nothing, the client's own declaration — and is therefore declared *)
+Theorem header_declares_every_variable_occurrence : forall ts ss n,
+  wt ts ss = true -> In n (vars ss) -> exists t, header_declares ts ss n = Some t /\ In (n, t) (positions ss).
+Proof. exact every_variable_occurrence_is_declared. Qed.
+(* the hypothesis matters: a variable about which neither the schema nor the client's header says anything
+   (ruled out by validation of the client's operation) stays undeclared *)
 Theorem C02_header_needs_annotations :
-  exists ts ss, positions ss = [("v", "String")] /\ header_declares ts ss "v" = None /\ wt ts ss = false.
-Proof. eexists. eexists. exact unannotated_value_is_skipped. Qed.
+  exists ts ss, vars ss = ["v"] /\ header_declares ts ss "v" = None /\ wt ts ss = false.
+Proof. eexists. eexists. exact unknown_variable_is_not_declared. Qed.
 Example c02_header_nonvacuous :
   wt ex_types ex_sels = true /\
-  map (header_declares ex_types ex_sels) ["a"; "b"; "c"; "d"; "e"] = [Some "String"; Some "String!"; Some "Int"; Some "Int"; None].
+  map (header_declares ex_types ex_sels) ["a"; "b"; "c"; "d"; "e"; "f"] =
+    [Some "String"; Some "String!"; Some "Int"; Some "Int"; Some "Float"; None].
 Proof. exact ex_header. Qed.
 
 Example c02_nonvacuous :
@@ -78,4 +85,5 @@ Print Assumptions C02_client_id_refuted.
 Print Assumptions header_is_the_bodys_variables.
 Print Assumptions header_declares_every_used_variable.
 Print Assumptions header_declares_only_used_variables.
+Print Assumptions header_declares_every_variable_occurrence.
 Print Assumptions C02_header_needs_annotations.
